@@ -524,9 +524,34 @@ func run(raw json.RawMessage) (hx.Case, error) {
 		}
 		dpCoq = append(dpCoq, hx.L(l))
 	}
+	// PCIe: the tree the calls describe (switches in creation order, then devices; parent < child)
+	var tpar, tlab, tunlab []uint64
+	if in.Topo == "pcie" && !panicked {
+		nsw, nd := len(in.Parent)+1, len(in.DevPorts)
+		tpar = append(tpar, 0)
+		for _, p := range in.Parent {
+			tpar = append(tpar, uint64(p))
+		}
+		tpar = append(tpar, 0) // the CPU sits on the root complex
+		for d := 1; d < nd; d++ {
+			tpar = append(tpar, uint64(in.DevAt[d-1]))
+		}
+		for d := 0; d < nd; d++ { // connector node list: devices first ...
+			tlab = append(tlab, uint64(nsw+d))
+		}
+		for s := 0; s < nsw; s++ { // ... then switches
+			tlab = append(tlab, uint64(s))
+		}
+		for s := 0; s < nsw; s++ {
+			tunlab = append(tunlab, uint64(nd+s))
+		}
+		for d := 0; d < nd; d++ {
+			tunlab = append(tunlab, uint64(d))
+		}
+	}
 	c := hx.Case{Obs: o}
 	c.Coq = hx.App("mk_case", hx.N(kind), hx.L(opsCoq), hx.L(tilesCoq), hx.L(dpCoq),
-		hx.N(uint64(max(flit, 0))), hx.N(1), hx.N(2), hx.L(msgsCoq), hx.L(tr), hx.L(flitsCoq), hx.L(pathsCoq), hx.B(o.Uniform))
+		hx.N(uint64(max(flit, 0))), hx.N(1), hx.N(2), hx.L(msgsCoq), hx.L(tr), hx.L(flitsCoq), hx.L(pathsCoq), hx.B(o.Uniform), hx.LN(tpar), hx.LN(tlab), hx.LN(tunlab))
 	c.Tags = append(c.Tags, "topo:"+in.Topo)
 	if in.Topo == "mesh" {
 		three := false
